@@ -63,6 +63,14 @@ class BoundsArray:
 def vector_dtype_event(f, arr, z_w=0.37):
     """the argument vector a calling class hands to an f8(f8,f8[:]) kernel must be a float64 array: any other dtype has no matching
     compiled definition (TypeError with the JIT on) although the interpreter accepts it"""
+    if isinstance(arr, np.ndarray) and arr.ndim != 1:
+        fn = getattr(f, "py_func", f)
+        key = (getattr(fn, "__module__", "?"), getattr(fn, "__name__", "?"))
+        if key in nbmodel.INFO and nbmodel.INFO[key]["sig"] and nbmodel.INFO[key]["sig"][1] == ["f8", "f8[:]"]:
+            return dict(kind="sig", module=key[0], func=key[1],
+                        args=[float(z_w), {"array": [nbmodel._num(x) for x in arr.ravel()], "dtype": "float64", "shape": list(arr.shape)}],
+                        detail=f"the calling class passes a {arr.ndim}-dimensional array as argument vector; the kernel is compiled for one-dimensional f8[:] only "
+                               f"(no matching definition under the JIT)")
     if isinstance(arr, np.ndarray) and arr.dtype != object and arr.dtype != np.float64:
         fn = getattr(f, "py_func", f)
         key = (getattr(fn, "__module__", "?"), getattr(fn, "__name__", "?"))
@@ -239,10 +247,11 @@ def _run(chk, only, static):
                         ev = vector_dtype_event(f, rsl.args[part])
                         if ev is not None:
                             nbmodel.EVENTS.append(ev)
+                        n_args = int(np.size(rsl.args[part]))
                         try:
-                            out.append((part, len(rsl.args[part])) + run_part(ctx, f, list(rsl.args[part]), part))
+                            out.append((part, n_args) + run_part(ctx, f, list(np.ravel(rsl.args[part])), part))
                         except (real.NotEncodable, real.Concretised, TypeError, AttributeError) as e:
-                            out.append((part, len(rsl.args[part]), [], ("skip", str(e)[:60])))
+                            out.append((part, n_args, [], ("skip", str(e)[:60])))
                     out.append(("__events__", 0, nbmodel.take_events(), None))
                     return out
 
